@@ -106,6 +106,7 @@ SelPool == <<
     [NoSel EXCEPT !.trip = Some([TDfull(2, 1) EXCEPT !.st = Some([h |-> 25, m |-> 30, s |-> 0, ok |-> TRUE])])],   \* identifiable, starts after 24:00:00
     [NoSel EXCEPT !.trip = Some([TDfull(1, 0) EXCEPT !.sd = Some([day |-> 7, ok |-> TRUE])])],                      \* identifiable, on a date whose local midnight some zones skip
     [NoSel EXCEPT !.rtype = Some(0 - 1)],                     \* negative route types are not route types
+    [NoSel EXCEPT !.dir = Some(1), !.trip = Some(TDr(1))],   \* the selector's own direction is not the descriptor's: the route is informed without direction
     [NoSel EXCEPT !.route = Some(1), !.trip = Some(TDid(2)), !.agency = Some(1), !.stop = Some(1), !.rtype = Some(3), !.dir = Some(1)]
 >>
 SelSeqs(n) == UNION {[1..k -> DOMAIN SelPool] : k \in 0..n}
